@@ -233,7 +233,7 @@ func TestC07Adapter(t *testing.T) {
 }
 
 func TestC07Tunnel(t *testing.T) {
-	vlib.SetRule("C07", "TestC07Tunnel", "end to end on a real 2-node cluster: client = client.Dialer or a forward.Forwarder in front of a plain TCP connection, entering at the upstream's node or the other one, upstream = Go SDK raw TCP accept or the agent TCP proxy in front of a local TCP server; the upstream echoes; drawn write sizes (0 B-1 MiB, total <= 2 MiB, crossing the yamux window) and read-buffer cycles, writer and reader running concurrently; then either end closes; oracle: the echoed stream equals the written stream byte for byte; after the client closes the upstream's connection ends and the server holds no open stream; after the upstream closes the client reads end of stream; non-trivial = cross-node path or a read buffer smaller than a write, with >= 64 KiB transferred")
+	vlib.SetRule("C07", "TestC07Tunnel", "end to end on a real 2-node cluster: client = client.Dialer or a forward.Forwarder in front of a plain TCP connection, entering at the upstream's node or the other one, upstream = Go SDK raw TCP accept or the agent TCP proxy in front of a local TCP server; the upstream echoes; drawn write sizes (0 B-1 MiB, total <= 2 MiB, crossing the yamux window) and read-buffer cycles, writer and reader running concurrently; then either end closes; oracle: the echoed stream equals the written stream byte for byte; after the client closes the upstream's connection ends and the server holds no open stream; after the upstream closes - or, behind the agent, resets - its connection the client reads end of stream; non-trivial = cross-node path or a read buffer smaller than a write, with >= 64 KiB transferred")
 	vlib.Run(t, "C07", func(c *vlib.Case) {
 		// a tunnel may outlive the proxy's request timeout: with a short timeout some
 		// cases pause for longer than it in the middle of the stream
@@ -272,12 +272,29 @@ func TestC07Tunnel(t *testing.T) {
 				minBuf = b
 			}
 		}
+		// the upstream service may also abort its connection (RST) instead of closing it:
+		// behind the agent the service's socket is a real TCP connection
+		reset := upstreamCloses && kind == "agent-tcp" && c.Bool("upstreamResets")
+		resetGo := make(chan struct{})
 		if upstreamCloses {
 			// echo exactly `total` bytes, then close from the upstream side
 			up.TCPHandler = func(conn net.Conn) {
 				_, _ = fmt.Fprintf(conn, "STAMP %s %s\n", up.Endpoint, up.ID)
 				_, _ = io.CopyN(conn, conn, int64(total))
+				if reset {
+					// only once the client has everything (a reset may destroy data in flight)
+					select {
+					case <-resetGo:
+					case <-time.After(3 * Deadline()):
+					}
+					if tc, ok := conn.(*net.TCPConn); ok {
+						_ = tc.SetLinger(0)
+					}
+				}
 			}
+		}
+		if reset {
+			c.Class("upstream-service-resets")
 		}
 		entry := cl.Nodes[c.Pick("entry", 2)]
 		if !WaitRoutable(cl.Nodes[1], cl.Nodes[0], "t1", Deadline()) {
@@ -371,7 +388,8 @@ func TestC07Tunnel(t *testing.T) {
 		}
 		closedBefore := up.TCPClosed.Load()
 		if upstreamCloses {
-			// the upstream has closed after echoing everything: the client must see end of stream
+			// the upstream has closed (or reset) after echoing everything: the client must see end of stream
+			close(resetGo)
 			n, err := conn.Read(make([]byte, 16))
 			if n != 0 || err == nil {
 				c.Fatalf("C07: the upstream closed its end but the client read %d bytes, err=%v", n, err)
